@@ -535,9 +535,10 @@ impl ExecutionEngine {
                 let output_var = Self::normalize_variable(output_variable);
 
                 if function_name == "CONCAT" {
-                    // Decode all needed values first
+                    // Decode all needed values first; an unbound argument makes the
+                    // expression an error, which leaves the target unbound (`None`)
                     let dict = database.dictionary.read().unwrap();
-                    let decoded_values: Vec<Vec<String>> = input_results
+                    let decoded_values: Vec<Option<Vec<String>>> = input_results
                         .iter()
                         .map(|row| {
                             arguments
@@ -545,13 +546,10 @@ impl ExecutionEngine {
                                 .map(|arg| {
                                     let arg_stripped = Self::normalize_variable(arg);
                                     if Self::is_variable(arg) {
-                                        if let Some(&id) = row.get(arg_stripped) {
-                                            dict.decode(id).unwrap_or("").to_string()
-                                        } else {
-                                            String::new()
-                                        }
+                                        row.get(arg_stripped)
+                                            .map(|&id| dict.decode(id).unwrap_or("").to_string())
                                     } else {
-                                        arg.trim_matches('"').to_string()
+                                        Some(arg.trim_matches('"').to_string())
                                     }
                                 })
                                 .collect()
@@ -559,16 +557,25 @@ impl ExecutionEngine {
                         .collect();
                     drop(dict);
 
-                    // Now encode the concatenated results
+                    // Now encode the concatenated results. A row that already binds the
+                    // target (it came in from a sibling group) must agree with the value.
                     let mut dict_write = database.dictionary.write().unwrap();
-                    for (row, decoded_row) in input_results.iter_mut().zip(decoded_values.iter()) {
-                        let concatenated = decoded_row.join("");
-                        let result_id = dict_write.encode(&concatenated);
-                        row.insert(output_var.to_string(), result_id);
+                    let mut extended = Vec::with_capacity(input_results.len());
+                    for (mut row, decoded_row) in input_results.into_iter().zip(decoded_values) {
+                        if let Some(parts) = decoded_row {
+                            let result_id = dict_write.encode(&parts.join(""));
+                            match row.get(output_var) {
+                                Some(&existing) if existing != result_id => continue,
+                                _ => {
+                                    row.insert(output_var.to_string(), result_id);
+                                }
+                            }
+                        }
+                        extended.push(row);
                     }
                     drop(dict_write);
 
-                    input_results
+                    extended
                 } else if let Some(func) = database.udfs.get(function_name.as_str()) {
                     // Similar fix for UDF
                     let dict = database.dictionary.read().unwrap();
